@@ -17,10 +17,12 @@ class C20(LoopCheck):
     def configs(self, tier):
         out = []
         for c in super().configs(tier):
-            if c["n_final"] and tier == "quick":
+            if c["n_final"] and tier == "quick" and c["schedule"] != "fixed2":
                 continue
             for via in ("sample", "ctor", "aspire"):
                 if c["sampler"] == "EmceeSMC" and via != "sample":
+                    continue
+                if c["n_final"] and via != "sample" and tier == "quick":
                     continue
                 c2 = dict(c)
                 c2["rng_via"] = via
